@@ -3,7 +3,7 @@
 From Coq Require Extraction.
 From Coq Require Import ExtrOcamlBasic.
 From Coq Require Import List NArith ZArith.
-From BB Require Import Ebnf Viable Chars Lexer G4Data Syntax Parser Graph Values Eval Loader Serialize Skeleton.
+From BB Require Import Ebnf Viable Chars Lexer G4Data Syntax Parser Unparse Render Graph Values Eval Loader Serialize Skeleton.
 
 Definition bb_lex (w:list N) (K F:nat) : option (list token) := lex lex_g lex_rules w K F.
 Definition bb_recognise (toks:list nat) (K F:nat) : option bool :=
@@ -31,6 +31,12 @@ Definition bb_ser_skel (cwd:str) (w:list N) : option (list str) :=
   | Ok p => option_map script_skel (ser_script p)
   | _ => None
   end.
+(* the TEXT the model writes for the program denoted by [w]: serialise, print to tokens, render (RenderP.ser_text_roundtrip) *)
+Definition bb_ser_text (cwd:str) (w:list N) : option (list N) :=
+  match bb_loads nil cwd w with
+  | Ok p => option_map (fun sc => render (up_script sc)) (ser_script p)
+  | _ => None
+  end.
 Definition bb_text_skel (w:list N) : option (list str) :=
   match front lex_g lex_rules (with_final_newline w) with
   | Ok sc => Some (script_skel sc)
@@ -41,4 +47,4 @@ Definition bb_text_skel (w:list N) : option (list str) :=
 Definition bb_viable (toks:list nat) (K F:nat) : option bool :=
   viable nat nat Nat.eqb pg toks K F (Ref start_rule).
 
-Extraction "bbmodel.ml" bb_lex bb_recognise bb_viable bb_parse bb_loads bb_load bb_instantiate bb_ser_skel bb_text_skel edges nodes.
+Extraction "bbmodel.ml" bb_lex bb_recognise bb_viable bb_parse bb_loads bb_load bb_instantiate bb_ser_skel bb_ser_text bb_text_skel edges nodes.
